@@ -74,14 +74,23 @@ impl<'a, T: Read + Seek> QueueReader<'a, T> {
     }
 
     /// Upper limit for the number of points that the file can deliver for this point cloud.
-    /// Point clouds that store at least one bit per point cannot contain more points than the file has bits,
+    /// Point clouds that store bits for every point cannot contain more points than the file has room for,
     /// whatever the record count in the XML claims. Used to keep size hints of the iterators honest.
     pub fn max_points(&self) -> u64 {
-        if self.all_zero_bits || self.pc.prototype.is_empty() {
-            u64::MAX
-        } else {
-            self.reader.logical_size().saturating_mul(8)
+        if self.pc.prototype.is_empty() {
+            // Without any record there is nothing to deliver
+            return 0;
         }
+        if self.all_zero_bits {
+            return u64::MAX;
+        }
+        let bits_per_point: u64 = self
+            .pc
+            .prototype
+            .iter()
+            .map(|r| r.data_type.bit_size() as u64)
+            .sum();
+        self.reader.logical_size().saturating_mul(8) / bits_per_point.max(1)
     }
 
     /// Returns the number of complete and available points across all queues.
